@@ -1009,6 +1009,10 @@ func checkSignature(algo SignatureAlgorithm, signed, signature []byte, publicKey
 // CheckCRLSignature checks that the signature in crl is from c.
 func (c *Certificate) CheckCRLSignature(crl *pkix.CertificateList) error {
 	algo := getSignatureAlgorithmFromAI(crl.SignatureAlgorithm)
+	if crl.SignatureValue.BitLength%8 != 0 {
+		// a signature value is an octet string carried in a BIT STRING: no unused bits
+		return errors.New("x509: CRL signature value is not a whole number of octets")
+	}
 	return c.CheckSignature(algo, crl.TBSCertList.Raw, crl.SignatureValue.RightAlign())
 }
 
@@ -1214,6 +1218,10 @@ func parseCertificate(in *certificate) (*Certificate, error) {
 	out.RawSubject = in.TBSCertificate.Subject.FullBytes
 	out.RawIssuer = in.TBSCertificate.Issuer.FullBytes
 
+	if in.SignatureValue.BitLength%8 != 0 {
+		// a signature value is an octet string carried in a BIT STRING: no unused bits
+		return nil, errors.New("x509: signature value is not a whole number of octets")
+	}
 	out.Signature = in.SignatureValue.RightAlign()
 	out.SignatureAlgorithm =
 		getSignatureAlgorithmFromAI(in.TBSCertificate.SignatureAlgorithm)
@@ -2269,6 +2277,10 @@ func ParseCertificateRequest(asn1Data []byte) (*CertificateRequest, error) {
 }
 
 func parseCertificateRequest(in *certificateRequest) (*CertificateRequest, error) {
+	if in.SignatureValue.BitLength%8 != 0 {
+		// a signature value is an octet string carried in a BIT STRING: no unused bits
+		return nil, errors.New("x509: signature value is not a whole number of octets")
+	}
 	out := &CertificateRequest{
 		Raw:                      in.Raw,
 		RawTBSCertificateRequest: in.TBSCSR.Raw,
